@@ -8,5 +8,8 @@ import common  # noqa: E402,F401
 import simimpl  # noqa: E402
 
 payload = json.loads(sys.stdin.read())
+if payload.get("forerunner"):
+    # an earlier simulation in this process: the same scenario over another geographic reference
+    simimpl.run_impl(payload["forerunner"], None, draw_seed=payload["seed"] + 17, global_random=True)
 res = simimpl.run_impl(payload["case"], None, draw_seed=payload["seed"], global_random=True)
 print(json.dumps({"trace": res["trace"], "crash": res["crash"]}))
